@@ -802,6 +802,84 @@ pub fn worker(ctx: &mut Ctx) {
         }
     }
 
+    // M. material that separates tokens in the text but not in the token list (two comments on one line with
+    //    code between them, a link destination, an HTML comment or tag), placed inside an identifier that the
+    //    identifier dictionary of the Collapse wrapper knows; and comments with fenced code blocks followed
+    //    by prose, under LF and CRLF line ends
+    {
+        let n = ctx.budget(4_000, 100_000);
+        let mut rng = ctx.rng_global("sweep-M");
+        let idents: [(&str, &str); 5] = [("foo_", "bar"), ("my-", "ident"), ("snake_case_", "name"), ("x_", "y"), ("alpha-beta_", "gamma")];
+        for i in 0..n {
+            unit += 1;
+            let mut r = Rng(rng.next());
+            if !ctx.mine(unit) {
+                continue;
+            }
+            let fe = all_fes[(i as usize) % all_fes.len()];
+            let (a, b) = *r.pick(&idents);
+            let s1 = r.pick(&corpus.sentences).clone();
+            let mut text;
+            if r.chance(1, 2) {
+                // split identifier
+                text = match fe {
+                    Fe::Comment(li) => {
+                        let sx = langs::syntax(LANGS[li as usize]);
+                        let code = if sx.stmt.is_empty() { "x = 1;".to_string() } else { sx.stmt[0].replace("{N}", "1").replace("{S}", "h\u{00E9}llo") };
+                        if sx.block.is_empty() {
+                            let l = sx.line[0];
+                            format!("{}{l} retry the {a}\n{code}\n{l} {b} thing\n", sx.prelude)
+                        } else {
+                            let (o, c) = sx.block[0];
+                            match r.below(3) {
+                                0 => format!("{}{o} retry the {a} {c} {code} {o} {b} thing {c}\n", sx.prelude),
+                                1 => format!("{}{o} retry the {a}{c}{code}{o}{b} thing {c}\n", sx.prelude),
+                                _ => format!("{}{o} {s1} {a}{c}\n{code}\n{o}{b} {s1} {c}\n", sx.prelude),
+                            }
+                        }
+                    }
+                    Fe::Html => format!("<p>{s1} {a}<!-- note -->{b} and {a}<b></b>{b} end</p>\n<p>{a}</p><p>{b}</p>"),
+                    Fe::Typst => format!("{s1} {a}#[]{b} and {a}/* c */{b} end"),
+                    _ => match r.below(4) {
+                        0 => format!("{s1} [{a}](https://example.com/doc \"the first half\"){b} end"),
+                        1 => format!("{s1} {a}<!-- note -->{b} end"),
+                        2 => format!("{s1} [{a}](http://a.b){b} and ![{a}](x.png){b}"),
+                        _ => format!("{a}`code`{b} {s1} *{a}*{b}"),
+                    },
+                };
+            } else {
+                // fenced block inside a comment / document, prose after it
+                let fence = *r.pick(&["```", "```rust", "~~~", "```\n```"]);
+                let body = format!("{s1}\n{fence}\nlet retu = 1;\n{}\nReturns the {a}{b} value. {s1}", if fence.starts_with('~') { "~~~" } else { "```" });
+                text = match fe {
+                    Fe::Comment(li) => {
+                        let sx = langs::syntax(LANGS[li as usize]);
+                        let l = *r.pick(sx.line);
+                        let mut t = String::from(sx.prelude);
+                        for line in body.split('\n') {
+                            t.push_str(l);
+                            t.push(' ');
+                            t.push_str(line);
+                            t.push('\n');
+                        }
+                        if !sx.stmt.is_empty() {
+                            t.push_str(&sx.stmt[0].replace("{N}", "2").replace("{S}", "x"));
+                            t.push('\n');
+                        }
+                        t
+                    }
+                    _ => embed(fe, &mut r, &body),
+                };
+            }
+            if r.chance(1, 2) {
+                text = text.replace('\n', "\r\n");
+            }
+            let (cfg, dialect) = stream.cfg_for(unit);
+            let wrap = if r.chance(2, 3) { Wrap::Collapse } else { Wrap::None };
+            run!(Case { fam: "split-and-fence", fe, wrap, text, cfg, dialect });
+        }
+    }
+
     // J. configurations x dialects on rule sentences
     {
         let n = ctx.budget(15_000, 250_000);
